@@ -15,7 +15,7 @@ EXPLANATION = (
     "precedes the acquire await, so the rejection clock starts at the first poll and the layer adds no delay "
     "and no other rejection path. Not decided: 'admitted at once when a slot is free and nobody queues' and "
     "'rejected exactly max_wait after arrival' are properties of tokio's semaphore fairness and timer."
-    ' (NO-PANIC-ARITH) no panicking Instant/Duration operator is applied to max_wait_duration; (CONFIG) a preset cannot make a later setter ineffective (build-select).')
+    ' (NO-PANIC-ARITH) no panicking Instant/Duration operator is applied to max_wait_duration; (CONFIG) a preset cannot make a later setter ineffective (build-select). (BOUNDED-WAIT) whether the wait is bounded is decided by the configured max_wait_duration on every leaf of the decision, never by a look at the free permits.')
 RULE = "one obligation per permit binding x exit class, per error construction site, per await preceding the acquire"
 TRUSTED = ["tokio::sync::Semaphore / OwnedSemaphorePermit (drop returns the permit)", "tokio::time::timeout", "may-unwind policy table"]
 ASSUMPTIONS = []
